@@ -364,6 +364,10 @@ pub fn run(sim: &Sim, prop: &str, tier: Tier) -> Outcome {
             w.borrow_mut().begin_poll();
         }
         let r = sut(|| n.tick());
+        {
+            let w = if who == "A" { &ba } else { &ab };
+            w.borrow_mut().end_poll();
+        }
         sim.event(EV_APP, 40 + (who == "A") as u64, matches!(r, Ok(Ok(()))) as u64, || format!("{}.tick -> {}", who, show_tick(&r)));
         match &r {
             Ok(Ok(())) => {}
